@@ -120,7 +120,7 @@ Lemma count_occ_nodup_le (l : list id) i : NoDup l -> (count_occ N.eq_dec l i <=
 Proof. intros H. apply (proj1 (NoDup_count_occ N.eq_dec l)). exact H. Qed.
 
 Lemma map_key_upd {R} (key : R -> id) (p : R -> bool) (f : R -> R) l :
-  (forall r, key (f r) = key r) -> map key (upd_where key p f l) = map key l.
+  (forall r, key (f r) = key r) -> map key (upd_where p f l) = map key l.
 Proof.
   intros H. unfold upd_where. rewrite map_map. apply map_ext. intros r.
   destruct (p r); [apply H|reflexivity].
